@@ -141,7 +141,7 @@ def bulk_stats(sl):
 # real ijson / json on enumerated responses
 # ------------------------------------------------------------------------------------------------------------------
 STRINGS = ["x", "", 'a"b', "]", "[", "sort", '"sort":[', "a\\", "é", "}{", ", ", "☃]"]
-AFTER_KEYS = [None, {"vendor": "a"}, {"host.name": "h", "user.name": 7}, {"a": True, "b": 1.5, "c": "x.y"}, {}]
+AFTER_KEYS = [None, {"vendor": "a"}, {"host.name": "h", "user.name": 7}, {"a": True, "b": 1.5, "c": "x.y"}, {}, {"vendor": None, "payment": "cash"}, {"only": None}]  # missing_bucket: true yields null members
 
 
 TOTAL_FORM = [2]
